@@ -10,3 +10,6 @@
 (declare-fun time_fmt_utc (Int Str) Str)
 ; equality of two public keys as decided by the key's own Equals (uninterpreted)
 (declare-fun pk_equal_s (Iface Iface) Bool)
+; a message's type name and the base fee of that type (sdk.Msg.Type / GetFee; uninterpreted)
+(declare-fun msg_type_s (Iface) Str)
+(declare-fun msg_basefee_s (Iface) Int)
